@@ -10,5 +10,4 @@ for _p in sorted(glob.glob(os.path.join(_here, "props", "C*.json"))):
 
 # properties not (yet) claimed, with the reason that goes into MANIFEST.not_applicable
 NOT_CLAIMED = {
-    "C16": "check being built (choreography model, regenerated channel facts, end-to-end stop runs); the technique applies",
 }
